@@ -557,6 +557,74 @@ Definition slice_write (hp : heap) (a : arr) (off0 len0 nblk esz : nat) (from : 
   | _, _ => slow_write hp a off len nblk data
   end.
 
+(* ------------------------------------------------------------------ C++ entry points (mpt++/array.cpp, array.h)
+   The buffers are the same C buffers; the C++ methods are thin compositions of the
+   C functions above or have their own logic, transcribed here.
+   array::insert(off,len,data) = mpt_array_insert + copy  -> [array_insert]   (after the proposed patch)
+   array::printf / string / slice::write               -> [array_printf] / [array_string] / [slice_write] *)
+
+(* reference<content>::operator= (array copy construction / assignment): no type check *)
+Definition ref_assign (hp : heap) (a s : arr) : heap * arr :=
+  if match a, s with Some i, Some k => i =? k | None, None => true | _, _ => false end then (hp, a) else
+  let hp1 := match s with Some k => haddref hp k | None => hp end in
+  (match a with Some i => hunref hp1 i | None => hp1 end, s).
+
+(* array::append(len, data): mpt_array_append(this, len) (zero filled), then memcpy to the returned address *)
+Definition x_append (hp : heap) (a : arr) (d : list byte) : ares :=
+  if length d =? 0 then array_append hp a [] else
+  let used := match a with
+              | Some i => match hget hp i with Some b => bused b | None => 0 end
+              | None => 0 end in
+  match array_append hp a (zeros (length d)) with
+  | ADone hp1 (Some j) n => lift hp1 (Some j) (do hp2 <- store hp1 j used d; Ok (hp2, Some j, n))
+  | r => r
+  end.
+
+(* array::set(len, base), new-buffer part: buffer::create(len), append(len), install, copy *)
+Definition x_fresh (hp : heap) (a : arr) (d : list byte) : ares :=
+  match (let nb := new_buf (length d) false false in
+         do m <- wr (bdata nb) 0 d; Ok (set_used (set_data nb m) (length d))) with
+  | Ok nb => ADone (match a with Some i => hunref hp i | None => hp end ++ [Some nb]) (Some (length hp)) 0
+  | _ => AFault
+  end.
+
+(* array::set(len, base) *)
+Definition x_set (hp : heap) (a : arr) (d : list byte) : ares :=
+  let len := length d in
+  match a with
+  | None => x_fresh hp a d
+  | Some i =>
+    match hget hp i with
+    | None => AFault
+    | Some b =>
+      if negb (btr b =? 0) || shared b then x_fresh hp a d else
+      if (len <=? bused b) (* set_length(len) *)
+         || negb (bsize b - bused b <? len - bused b) (* buffer::append(len - used) *)
+      then lift hp a (do m <- wr (bdata b) 0 d; Ok (hset hp i (set_used (set_data b m) len), a, 0))
+      else x_fresh hp a d
+    end
+  end.
+
+(* array::set(const value &) for a string value (after the proposed patch): new character buffer text + NUL *)
+Definition x_set_str (hp : heap) (a : arr) (text : list byte) : ares :=
+  let nb := set_tr (new_buf (length text + 1) false false) 1 in
+  match (do b1 <- buffer_set nb 1 0 text; buffer_set b1 1 (length text) [0%N]) with
+  | Ok b2 => ADone (match a with Some i => hunref hp i | None => hp end ++ [Some b2]) (Some (length hp)) 0
+  | Err _ => ARefused hp a
+  | Fault => AFault
+  end.
+
+(* array::operator=(const slice &): set(len, base + off) with the bytes of the slice window *)
+Definition x_assign_slice (hp : heap) (a src : arr) (off len : nat) : ares :=
+  match src with
+  | None => x_set hp a []
+  | Some k =>
+    match hget hp k with
+    | None => AFault
+    | Some c => match rd (bdata c) off len with Ok w => x_set hp a w | _ => AFault end
+    end
+  end.
+
 (* ------------------------------------------------------------------ handles, operations *)
 Record handle := mkh { hbuf : arr; hsl : bool; hoff : nat; hlen : nat }.
 Record state := mkst { sheap : heap; shnd : list handle }.
@@ -581,7 +649,16 @@ Inductive op :=
 | ONew (x len : nat) (imm nc : bool)
 | OFlags (x : nat) (imm nc : bool)
 | OMkSlice (s x off len : nat)
-| OWrite (s nblk esz : nat) (from : bool) (d : list byte).
+| OWrite (s nblk esz : nat) (from : bool) (d : list byte)
+(* C++ API *)
+| OXAssign (x y : nat)                 (* arr[x] = arr[y] *)
+| OXAppend (x : nat) (d : list byte)
+| OXSet (x : nat) (d : list byte)
+| OXSetStr (x : nat) (text : list byte)
+| OXAssignSlice (x s : nat)            (* arr[x] = slice s *)
+| OXMkSlice (s y : nat)                (* sl[s] = slice(arr[y]) *)
+| OXShift (s n : nat)
+| OXTrim (s n : nat).
 
 (* ODone n m: accepted; n = number visible at the value level, m = mechanism-level number *)
 Inductive outcome := ODone (n m : nat) | ORefused | OGuard | OFault.
@@ -590,11 +667,16 @@ Definition target (o : op) : nat :=
   match o with
   | OAppend x _ | OInsert x _ _ | OSet x _ _ _ _ | OSlice x _ _ _ | OReserve x _ _ | OClone x _
   | OReduce x | OBufInsert x _ _ | OBufCut x _ _ | OBufSet x _ _ _ | OPrintf x _ | OString x
-  | ONew x _ _ _ | OFlags x _ _ | OMkSlice x _ _ _ | OWrite x _ _ _ _ => x
+  | ONew x _ _ _ | OFlags x _ _ | OMkSlice x _ _ _ | OWrite x _ _ _ _
+  | OXAssign x _ | OXAppend x _ | OXSet x _ | OXSetStr x _ | OXAssignSlice x _ | OXMkSlice x _
+  | OXShift x _ | OXTrim x _ => x
   end.
 
 Definition is_slice_op (o : op) : bool :=
-  match o with OMkSlice _ _ _ _ | OWrite _ _ _ _ _ => true | _ => false end.
+  match o with
+  | OMkSlice _ _ _ _ | OWrite _ _ _ _ _ | OXMkSlice _ _ | OXShift _ _ | OXTrim _ _ => true
+  | _ => false
+  end.
 
 (* the harness applies the in-place buffer functions only to a private, mutable buffer *)
 Definition direct_ok (hp : heap) (a : arr) : option (nat * buf) :=
@@ -603,6 +685,14 @@ Definition direct_ok (hp : heap) (a : arr) : option (nat * buf) :=
   | Some i => match hget hp i with
               | Some b => if shared b || bimm b then None else Some (i, b)
               | None => None end
+  end.
+
+(* the window of handle s lies inside the data of its buffer *)
+Definition consistent (st : state) (s : nat) : bool :=
+  let h := hnd st s in
+  match hbuf h with
+  | None => hoff h + hlen h <=? 0
+  | Some i => match hget (sheap st) i with Some b => hoff h + hlen h <=? bused b | None => false end
   end.
 
 (* vis: the returned number is visible at the value level *)
@@ -685,6 +775,31 @@ Definition step (st : state) (o : op) : state * outcome :=
     | SRefused hp1 a1 off len => (mkst hp1 (lset (shnd st) x (mkh a1 true off len)), ORefused)
     | SFault => (st, OFault)
     end
+  | OXAssign _ y =>
+    if negb (y <? length (shnd st)) || hsl (hnd st y) then (st, OGuard) else
+    let '(hp1, a1) := ref_assign hp a (hbuf (hnd st y)) in (upd_arr st x hp1 a1, ODone 0 0)
+  | OXAppend _ d => fin st x false (x_append hp a d)
+  | OXSet _ d => fin st x false (x_set hp a d)
+  | OXSetStr _ text => fin st x false (x_set_str hp a text)
+  | OXAssignSlice _ s =>
+    if negb (s <? length (shnd st)) || negb (hsl (hnd st s)) || negb (consistent st s) then (st, OGuard) else
+    fin st x false (x_assign_slice hp a (hbuf (hnd st s)) (hoff (hnd st s)) (hlen (hnd st s)))
+  | OXMkSlice _ y =>
+    if negb (y <? length (shnd st)) || hsl (hnd st y) then (st, OGuard) else
+    let s := hbuf (hnd st y) in
+    let '(hp1, a1) := ref_assign hp a s in
+    let len := match s with
+               | Some k => match hget hp k with Some c => if btr c =? 0 then bused c else 0 | None => 0 end
+               | None => 0 end in
+    (mkst hp1 (lset (shnd st) x (mkh a1 true 0 len)), ODone 0 0)
+  | OXShift _ n =>
+    if negb (consistent st x) then (st, OGuard) else
+    if hlen h <? n then (st, ORefused)
+    else (mkst hp (lset (shnd st) x (mkh a true (hoff h + n) (hlen h - n))), ODone 0 0)
+  | OXTrim _ n =>
+    if negb (consistent st x) then (st, OGuard) else
+    if hlen h <? n then (st, ORefused)
+    else (mkst hp (lset (shnd st) x (mkh a true (hoff h) (hlen h - n))), ODone 0 0)
   end.
 
 Fixpoint run (st : state) (ops : list op) : list (state * outcome) :=
